@@ -807,6 +807,8 @@ def _shrink_with(plan, fails, max_runs=300):
         runs[0] += 1
         return fails(p)
     cur = plan.copy()
+    if isinstance(plan.meta, dict) and plan.meta.get('no_shrink'):
+        return cur, 0      # every step of the plan is part of what is judged (a save before a restore): removing one changes the question
     n = 2
     while len(cur.cycles) >= 2 and runs[0] < max_runs:
         chunk = max(1, len(cur.cycles) // n)
